@@ -243,6 +243,26 @@ static void part_mt(int thorough) {
 				if (r != LZMA_STREAM_END) FAILM("mt-result", "threaded decoder returned %d", r);
 				else if (pk > (long long)mlt + 200 * 1024) FAILM("mt-exceeds-memlimit_threading", "peak requested %lld exceeds memlimit_threading %llu (idle output buffers of finished Blocks must be released first)", pk, (unsigned long long)mlt); } }
 		lzma_index_end(ix, NULL); }
+	// cached worker decoders that were freed to make room must not be counted twice when the workers are reused: seven 1 MiB Blocks whose headers declare
+	// 16 MiB dictionaries (the last one 24 MiB), three threads, limit = three Blocks' need; fed in three phases (Blocks 1-3, 4-6, the rest) with everything read in between
+	if ((unit++ % nsh) == sh) { enum { NB = 7, US = 1 << 20 }; static uint8_t data[US], comp[US + (US >> 2) + 1024], f7[NB * (US + (US >> 2) + 2048) + 4096], ob7[8 << 20]; size_t bend[NB]; uint64_t bmem[NB];
+		uint32_t seed = 12345; for (size_t i = 0; i < US; i++) { seed = seed * 1103515245u + 12345u; data[i] = (uint8_t)('a' + ((seed >> 16) & 15)); }
+		lzma_options_lzma oe; lzma_lzma_preset(&oe, 0); oe.dict_size = 1 << 20; lzma_filter fe[2] = { { LZMA_FILTER_LZMA2, &oe }, { LZMA_VLI_UNKNOWN, NULL } }; size_t cs = 0;
+		if (lzma_raw_buffer_encode(fe, NULL, data, US, comp, &cs, sizeof comp) == LZMA_OK) { uint32_t crc = lzma_crc32(data, US, 0); size_t pos = 0; lzma_stream_flags sf = { .version = 0, .check = LZMA_CHECK_CRC32 }; lzma_stream_header_encode(&sf, f7); pos = 12; lzma_index *ix = lzma_index_init(NULL); int okb = 1;
+			for (int b = 0; b < NB && okb; b++) { lzma_options_lzma oh = oe; oh.dict_size = b < NB - 1 ? 16u << 20 : 24u << 20; lzma_filter fh[2] = { { LZMA_FILTER_LZMA2, &oh }, { LZMA_VLI_UNKNOWN, NULL } };
+				lzma_block blk = { .version = 0, .check = LZMA_CHECK_CRC32, .filters = fh, .compressed_size = cs, .uncompressed_size = US };
+				if (lzma_block_header_size(&blk) != LZMA_OK || lzma_block_header_encode(&blk, f7 + pos) != LZMA_OK) { okb = 0; break; } pos += blk.header_size; memcpy(f7 + pos, comp, cs); pos += cs; while (pos & 3) f7[pos++] = 0; for (int k = 0; k < 4; k++) f7[pos++] = (uint8_t)(crc >> (8 * k));
+				bend[b] = pos; lzma_index_append(ix, NULL, lzma_block_unpadded_size(&blk), US); bmem[b] = lzma_raw_decoder_memusage(fh) + ((cs + 3) & ~(size_t)3) + 4 + US + 128; }
+			size_t ip = pos; if (okb && lzma_index_buffer_encode(ix, f7, &ip, sizeof f7) == LZMA_OK) { sf.backward_size = lzma_index_size(ix); lzma_stream_footer_encode(&sf, f7 + ip); size_t fl = ip + 12; uint64_t limit = 3 * bmem[0];
+				snprintf(desc, sizeof desc, "7 Blocks of 1 MiB declaring 16/24 MiB dictionaries, threads=3, memlimit_threading=%llu (three Blocks), three feeding phases", (unsigned long long)limit); H_CASE("c09 mt %s", desc);
+				for (int attempt = 0; attempt < 3; attempt++) { n_cases++; lzma_stream s = LZMA_STREAM_INIT; s.allocator = &AL; reset_counters(); lzma_mt m = { .threads = 3, .memlimit_threading = limit, .memlimit_stop = UINT64_MAX }; if (lzma_stream_decoder_mt(&s, &m) != LZMA_OK) break;
+					static const int PH[3][2] = { { 0, 2 }, { 2, 5 }, { 5, -1 } }; lzma_ret r = LZMA_OK; size_t from = 0;
+					for (int ph = 0; ph < 3 && (r == LZMA_OK); ph++) { size_t to = PH[ph][1] < 0 ? fl : bend[PH[ph][1]]; uint64_t target = (uint64_t)(PH[ph][1] < 0 ? NB : PH[ph][1] + 1) * US; s.next_in = f7 + from; s.avail_in = to - from; from = to;
+						for (long g = 0; g < 100000; g++) { s.next_out = ob7; s.avail_out = sizeof ob7; r = lzma_code(&s, PH[ph][1] < 0 ? LZMA_FINISH : LZMA_RUN); if (r != LZMA_OK) break; if (PH[ph][1] >= 0 && s.avail_in == 0 && s.total_out == target) break; } }
+					long long pk = atomic_load(&peak_b); lzma_end(&s); n_nontrivial++;
+					if (r != LZMA_STREAM_END) { FAILM("mt-result", "threaded decoder returned %d in the phased run", r); break; }
+					if (pk > (long long)limit + 200 * 1024) { FAILM("mt-exceeds-memlimit_threading", "peak requested %lld exceeds memlimit_threading %llu in the phased 7-Block run (a single Block needs %llu)", pk, (unsigned long long)limit, (unsigned long long)bmem[NB - 1]); break; } } }
+			lzma_index_end(ix, NULL); } }
 }
 
 int main(int argc, char **argv) {
